@@ -466,6 +466,25 @@ def _sb_typeis(eng, st, x, c):
     return mk_bool(S.typeof(x.t) == eng.class_id(c.const))
 
 
+def _sb_sametype(eng, st, x, y):
+    """x and y are references to objects of the same dynamic class"""
+    tx = S.typeof(x.t) if x.ty.kind == "ref" else S.typeof(PyObj.rval(x.t))
+    ty = S.typeof(y.t) if y.ty.kind == "ref" else S.typeof(PyObj.rval(y.t))
+    ok = [PyObj.is_O_ref(v.t) for v in (x, y) if v.ty.kind == "obj"]
+    return mk_bool(z3.And(tx == ty, *ok))
+
+
+def _sb_typeis_builtin(eng, st, x, name):
+    """type(x) is exactly the builtin class (bool is not int, a Quantity is not float)"""
+    o = eng.to_obj(x)
+    return mk_bool({"int": PyObj.is_O_int, "float": PyObj.is_O_float, "bool": PyObj.is_O_bool, "str": PyObj.is_O_str}[name.const](o))
+
+
+def _sb_isfresh(eng, st, r):
+    """the reference denotes an object allocated by this call (not one that existed in the pre-state)"""
+    return mk_bool(r.t >= eng.A0)
+
+
 def _sb_instance(eng, st, x, c):
     return mk_bool(eng.isinstance_sv(x, c.const))
 
@@ -705,7 +724,7 @@ def _sb_pub(eng, st, et, content, ts):
     return eng.pack(SV(ty, None, items=items))
 
 
-SPEC_BUILTINS = {"istuple": _sb_istuple, "tlen": _sb_tlen, "titem": _sb_titem, "heap_unchanged": _sb_heap_unchanged, "inset": _sb_inset, "unchanged_except": _sb_unchanged_except, "pub": _sb_pub, "allocated": _sb_allocated, "bval": _sb_bval, "isdict": _sb_isdict, "dlen": _sb_dlen, "dkeys": _sb_dkeys, "dhas": _sb_dhas, "dget": _sb_dget,
+SPEC_BUILTINS = {"typeis_builtin": _sb_typeis_builtin, "sametype": _sb_sametype, "isfresh": _sb_isfresh, "istuple": _sb_istuple, "tlen": _sb_tlen, "titem": _sb_titem, "heap_unchanged": _sb_heap_unchanged, "inset": _sb_inset, "unchanged_except": _sb_unchanged_except, "pub": _sb_pub, "allocated": _sb_allocated, "bval": _sb_bval, "isdict": _sb_isdict, "dlen": _sb_dlen, "dkeys": _sb_dkeys, "dhas": _sb_dhas, "dget": _sb_dget,
                  "isinst": _sb_isinst, "indexof": _sb_indexof, "mapeq": _sb_mapeq, "has": _sb_has, "get": _sb_get, "contains": _sb_contains, "nodup": _sb_nodup, "rm": _sb_rm,
                  "map_put": _sb_map_put, "map_del": _sb_map_del, "seq1": _sb_seq1, "asref": _sb_asref,
                  "subseq": _sb_subseq, "empty_like": _sb_empty_like, "map_empty": _sb_map_empty,
@@ -877,6 +896,10 @@ def b_float(eng, s, a, k, node):
         return [(s, SV(REAL, S.xval(S.to_xr(v))))]
     if kd in ("real", "xreal"):
         return [(s, v)]
+    if kd == "obj" and "Quantity" in eng.table.classes and eng.reg.specfuns.get("quantity_float"):
+        goal = z3.And(PyObj.is_O_ref(v.t), eng.isinstance_ref(PyObj.rval(v.t), "Quantity"))
+        if eng.prover.quick(s.pc, goal) == "proved":
+            return [(s, eng.reg.specfuns["quantity_float"](eng, SV(REF("Quantity"), PyObj.rval(v.t)), s))]
     if kd == "obj":
         return eng.implicit(s, "TypeError", z3.Not(z3.Or(eng.is_numeric_obj(v), PyObj.is_O_str(v.t))),
                             lambda s2: eng.implicit(s2, "ValueError", PyObj.is_O_str(v.t),
@@ -884,7 +907,7 @@ def b_float(eng, s, a, k, node):
     if kd == "ref" and eng.table.is_subclass(v.ty.cls, "Quantity"):
         fn = eng.reg.specfuns.get("quantity_float")
         if fn:
-            return [(s, fn(eng, v))]
+            return [(s, fn(eng, v, s))]
     raise Unsupported("float(%r)" % (v.ty,))
 
 
